@@ -532,6 +532,7 @@ def rules(ctx):
     from . import formulas
     formulas.network_formulas(ctx, "R6")
     formulas.network_predicates(ctx, "R6")
+    formulas.completeness_loops(ctx, "R1")
     loader(ctx)
     getters(ctx)
     sorted_maps(ctx)
